@@ -11,8 +11,10 @@ package main
 //	        an increment of getMiss, unconditionally on the path from where RefEnv is read.
 
 import (
+	"go/constant"
 	"go/token"
 	"go/types"
+	"strings"
 
 	"golang.org/x/tools/go/ssa"
 )
@@ -363,4 +365,57 @@ func allCallsTo(fn, callee *ssa.Function) []*ssa.Call {
 		}
 	})
 	return res
+}
+
+// checkNamedFormOnlyForOwnName: rule C14.R10.
+//
+// A line of the state file binds exactly one name. The definition form `func g(...){...}` binds g: under
+// SaveGlobals a write whose arguments do not include the key of the binding being saved (the bare Inspect() of
+// a named function) is made only where that key was compared with the function's own name. Otherwise an alias
+// (h = g) is written as a second definition of g, and h is not in the next session.
+func (c *Ctx) checkNamedFormOnlyForOwnName(r *Report, rule string) {
+	entry := c.SSAFn(c.Fn("object", "Environment.SaveGlobals"))
+	n := 0
+	for _, fn := range c.localHelpers(entry, 2) {
+		eachInstr(fn, func(in ssa.Instruction) {
+			call, ok := in.(*ssa.Call)
+			if !ok {
+				return
+			}
+			obj := calleeObj(call)
+			if obj == nil || obj.Pkg() == nil || obj.Pkg().Path() != "fmt" || obj.Name() != "Fprintf" || len(call.Common().Args) < 2 {
+				return
+			}
+			k, ok := call.Common().Args[1].(*ssa.Const)
+			if !ok || k.Value == nil || k.Value.Kind() != constant.String {
+				return
+			}
+			format := constant.StringVal(k.Value)
+			if strings.Count(format, "%") != 1 || strings.Contains(format, "=") {
+				return // the key=value form (or not a binding line)
+			}
+			n++
+			compared := false
+			for _, cc := range controlling(call.Block()) {
+				bin, ok := cc.Cond.(*ssa.BinOp)
+				if !ok || !((bin.Op == token.EQL && cc.Edge == 0) || (bin.Op == token.NEQ && cc.Edge == 1)) {
+					continue
+				}
+				bx, okx := bin.X.Type().Underlying().(*types.Basic)
+				by, oky := bin.Y.Type().Underlying().(*types.Basic)
+				if okx && oky && bx.Kind() == types.String && by.Kind() == types.String {
+					if _, isK := bin.X.(*ssa.Const); !isK {
+						if _, isK := bin.Y.(*ssa.Const); !isK {
+							compared = true
+						}
+					}
+				}
+			}
+			r.Check(compared, rule, ssaFuncName(fn), "the definition form is written for the function's own name only", c.Pos(call.Pos()),
+				"a line without `name=` (the bare text of a named function) is written for a binding whose key was not compared with the function's name: an alias (func g(a){a+1}; h=g) is saved as a second `func g` line and h is missing after the reload")
+		})
+	}
+	if n == 0 {
+		r.OkWhy(rule, ssaFuncName(entry), "every line is written as name=value", c.Pos(entry.Pos()), "no bare definition form")
+	}
 }
